@@ -7,6 +7,7 @@ struct fs_file fs_files[FS_NFILES];
 int fs_fd_file[FS_FD_MAX + 1];
 int fs_bad_fd_ops, fs_opens, fs_closes, fs_pwrites, fs_short_writes, fs_write_errors;
 int fs_faults_enabled, fs_short_writes_enabled;
+int fs_fail_errno = 28; /* errno of an injected pwrite failure (ENOSPC unless the harness chooses another, e.g. EINTR) */
 int fs_short_writes_max = 1 << 30; /* after this many short writes the OS takes whole requests (bounds the resume loop) */
 int fs_fail_pwrite_from = -1, fs_fail_pwrite_at = -1, fs_fail_open_at = -1, fs_fail_flock_at = -1;
 int fs_flocks;
@@ -93,7 +94,7 @@ SYS(pwrite)(int fd, const void* buf, size_t n, off_t off)
         ++fs_write_errors;
         bool_t zero = ND(bool_t); /* a failing write either reports an error or writes nothing */
         if (zero) return 0;
-        verif_errno_ = 28;
+        verif_errno_ = fs_fail_errno;
         return -1;
     }
     size_t r = n;
